@@ -115,6 +115,7 @@ theorem c07_forcecas_same_graph (c : StoreCfg) (re : Bool) (st : FileSt) (d : SD
     (FileSt.push c re st d good true).1.graph = (FileSt.push c re st d good false).1.graph ∧
     (FileSt.push c re st d good true).2 = (FileSt.push c re st d good false).2 := by
   unfold FileSt.push
+  simp only [Bool.false_eq_true, false_and, if_false]
   cases hname : d.name with
   | none =>
     simp only
